@@ -72,7 +72,14 @@ def concretize_prefs(witness):
 
 
 def sym_base(prefix="b", ymin=1, ymax=9999, with_us=True, tzinfo=None):
-    return dates.sym_datetime(prefix, ymin, ymax, tzinfo=tzinfo, with_us=with_us)
+    b = dates.sym_datetime(prefix, ymin, ymax, tzinfo=tzinfo, with_us=with_us)
+    rng = {"year": (ymin, ymax), "month": (1, 12), "day": (1, 28), "hour": (0, 23), "minute": (0, 59), "second": (0, 59),
+           "microsecond": (0, 999999)}
+    for f in dates._FIELDS:
+        t = getattr(b, f)
+        if isinstance(t, SInt):
+            core.register_input("%s_%s" % (prefix, f), t.z, *rng[f])
+    return b
 
 
 def base_witness(b, prefix="b"):
